@@ -15,6 +15,9 @@ struct RunPlan
     std::vector<double> states2; // state values at the second evaluation point (primary units)
     std::vector<std::pair<size_t, double>> preload[2]; // variables entries overwritten before the compute calls (NLA truth)
     std::vector<std::pair<size_t, double>> externalValues[2]; // value returned by the callback per variable index and point
+    // C20: the entries of the external variables are set to NaN before the first call and again after the arrays have
+    // been reported following each method, so that a method that reads one without calling the callback first shows.
+    bool poisonExternals = false;
 };
 
 struct InfoEntry
@@ -31,12 +34,15 @@ struct RunResult
     bool hasStateCount = false;
     std::vector<double> initStates, initVars, ccVars;
     std::vector<double> rates[2], vars[2], states[2];
+    std::vector<double> varsAfterRates[2]; // variables array right after computeRates (ODE models)
     double nlaResidual = 0.0;
     long nlaCalls = 0;
     InfoEntry voiInfo;
     bool hasVoiInfo = false;
     std::vector<InfoEntry> stateInfo, variableInfo;
-    std::vector<std::string> externalCalls; // "point index" trace of callback invocations with snapshot hashes (C20)
+    // One entry per callback invocation, in order: "<point> <index> <stage> | <states> | <variables>" (arrays as seen by
+    // the callback), stage 0 = initialiseVariables, 1 = computeRates, 2 = computeVariables (C20).
+    std::vector<std::string> externalCalls;
     std::string raw;
 };
 
